@@ -603,7 +603,8 @@ PARTIAL = [
     "with FNM_PERIOD the specification IS the mirror of the code",
     "timegm, getline, mbsnrtowcs, asprintf depend on libc services that are parameters of the models "
     "(mktime, getc, mbrtowc, vsnprintf); their behaviour is assumed as modelled",
-    "pton6: structural theorems + round trip on all 2^8 shapes by execution, no full grammar theorem",
+    "pton6: result shape + full round trip pton6(ntop6 a) = a proved; no theorem about the complete input "
+    "grammar (upper case, leading zeros, rejected forms) — those are compared by the harness",
 ]
 
 
